@@ -312,8 +312,17 @@ pub fn build(p: &Program, k: &K, sched: Sched) -> Result<Built, String> {
 
 /// Same, the data of every piece being handed over by a source following `src_sched`
 /// (a `Read` may return fewer bytes than asked)
+/// `p` written for the recipients of `keys_of` (another program: same recipients, other data)
+pub fn build_for_keys(p: &Program, k: &K, keys_of: &Program) -> Result<Built, String> {
+    build_inner(p, k, Sched::All, Sched::All, recipient_keys(keys_of))
+}
+
 pub fn build_with_sources(p: &Program, k: &K, sched: Sched, src_sched: Sched) -> Result<Built, String> {
-    let (sks, pks) = recipient_keys(p);
+    build_inner(p, k, sched, src_sched, recipient_keys(p))
+}
+
+fn build_inner(p: &Program, k: &K, sched: Sched, src_sched: Sched, keys: (Vec<[u8; 32]>, Vec<PublicKey>)) -> Result<Built, String> {
+    let (sks, pks) = keys;
     let cfg = writer_config(p, &pks);
     let key = if p.layers & 1 != 0 { Some(*cfg.encryption_key()) } else { None };
     let nonce = if p.layers & 1 != 0 { Some(*cfg.encryption_nonce()) } else { None };
@@ -326,6 +335,11 @@ pub fn build_with_sources(p: &Program, k: &K, sched: Sched, src_sched: Sched) ->
     let mut off = vec![0usize; p.files.len()];
     let mut ids: Vec<Option<u64>> = vec![None; p.files.len()];
     let mut flush_marks = Vec::new();
+    // one program in three hands over sources that hold more than the announced size (the rest of
+    // the file's data): only the announced bytes belong to the piece
+    let extra = if p.seed % 3 == 1 { usize::MAX / 4 } else { 0 };
+    // one program in four issues its flushes through a helpers::StreamWriter of an open file
+    let flush_through_stream_writer = p.seed % 4 == 2;
     for (i, op) in p.ops.iter().enumerate() {
         match op {
             Op::Start(f) => {
@@ -335,7 +349,7 @@ pub fn build_with_sources(p: &Program, k: &K, sched: Sched, src_sched: Sched) ->
             Op::Append(f, s) => {
                 let n = s.eval(k) as usize;
                 let id = ids[*f].ok_or_else(|| format!("op {i}: append before start"))?;
-                w.append_file_content(id, n as u64, ThrottledSrc::new(&data[*f][off[*f]..off[*f] + n], src_sched.clone()))
+                w.append_file_content(id, n as u64, ThrottledSrc::new(&data[*f][off[*f]..(off[*f] + n + extra).min(data[*f].len())], src_sched.clone()))
                     .map_err(|e| format!("op {i} append_file_content: {e}"))?;
                 off[*f] += n;
             }
@@ -345,13 +359,23 @@ pub fn build_with_sources(p: &Program, k: &K, sched: Sched, src_sched: Sched) ->
             }
             Op::Add(f, s) => {
                 let n = s.eval(k) as usize;
-                w.add_file(&p.files[*f].name.render(), n as u64, ThrottledSrc::new(&data[*f][off[*f]..off[*f] + n], src_sched.clone()))
+                w.add_file(&p.files[*f].name.render(), n as u64, ThrottledSrc::new(&data[*f][off[*f]..(off[*f] + n + extra).min(data[*f].len())], src_sched.clone()))
                     .map_err(|e| format!("op {i} add_file: {e}"))?;
                 off[*f] += n;
                 ids[*f] = Some(u64::MAX);
             }
             Op::Flush => {
-                w.flush().map_err(|e| format!("op {i} flush: {e}"))?;
+                let open_id = (0..p.files.len()).find_map(|f| match ids[f] {
+                    Some(id) if id != u64::MAX && !p.ops[..i].iter().any(|e| matches!(e, Op::End(g) if *g == f)) => Some(id),
+                    _ => None,
+                });
+                match open_id {
+                    Some(id) if flush_through_stream_writer => {
+                        use std::io::Write as _;
+                        mla::helpers::StreamWriter::new(&mut w, id).flush().map_err(|e| format!("op {i} flush (StreamWriter): {e}"))?;
+                    }
+                    _ => w.flush().map_err(|e| format!("op {i} flush: {e}"))?,
+                }
                 let mut m = BTreeMap::new();
                 for (f, id) in ids.iter().enumerate() {
                     if id.is_some() {
@@ -533,6 +557,12 @@ impl Write for CapVec {
 }
 
 /// Repair `src` into a fresh archive without layers. Err = repair refused to start or failed.
+thread_local! {
+    /// repair into an output writer that already holds one entry
+    pub static REPAIR_INTO_USED_WRITER: std::cell::Cell<bool> = const { std::cell::Cell::new(false) };
+}
+pub const RECOVERY_NOTE: &str = "\u{1}verif recovery note 7f3a\u{1}";
+
 pub fn repair<R: Read>(src: R, sks: &[[u8; 32]], mode: Mode) -> Result<Repaired, String> {
     repair_capped(src, sks, mode, usize::MAX / 2)
 }
@@ -540,15 +570,33 @@ pub fn repair<R: Read>(src: R, sks: &[[u8; 32]], mode: Mode) -> Result<Repaired,
 /// `cap`: upper bound on the size of the repaired archive (a repair that appends for ever is
 /// turned into an error mentioning HARNESS-OUTPUT-CAP instead of exhausting memory)
 pub fn repair_capped<R: Read>(src: R, sks: &[[u8; 32]], mode: Mode, cap: usize) -> Result<Repaired, String> {
-    let mut cfg = reader_config(sks);
-    match mode {
-        Mode::Auth => cfg.failsafe_return_only_authenticated_data(),
-        Mode::Unauth => cfg.failsafe_return_data_even_unauthenticated(),
+    // the two orders of building the reader configuration (keys first / mode first) are equivalent
+    let cfg = if sks.first().is_some_and(|k| k[0] & 1 == 1) {
+        let mut cfg = ArchiveReaderConfig::new();
+        match mode {
+            Mode::Auth => cfg.failsafe_return_only_authenticated_data(),
+            Mode::Unauth => cfg.failsafe_return_data_even_unauthenticated(),
+        };
+        let keys: Vec<StaticSecret> = sks.iter().map(|s| StaticSecret::from(*s)).collect();
+        cfg.add_private_keys(&keys);
+        cfg
+    } else {
+        let mut cfg = reader_config(sks);
+        match mode {
+            Mode::Auth => cfg.failsafe_return_only_authenticated_data(),
+            Mode::Unauth => cfg.failsafe_return_data_even_unauthenticated(),
+        };
+        cfg
     };
     let mut fs = ArchiveFailSafeReader::from_config(src, cfg).map_err(|e| format!("failsafe open: {e}"))?;
     let mut wc = ArchiveWriterConfig::new();
     wc.set_layers(Layers::EMPTY);
     let mut out = ArchiveWriter::from_config(CapVec { buf: Vec::new(), cap }, wc).map_err(|e| format!("out writer: {e}"))?;
+    if REPAIR_INTO_USED_WRITER.with(std::cell::Cell::get) {
+        // the caller's output archive already holds an entry (a note about the recovery):
+        // the ids the output writer hands out then differ from the ids of the source
+        out.add_file(RECOVERY_NOTE, 22, &b"recovered by the check"[..]).map_err(|e| format!("out writer: {e}"))?;
+    }
     let st = fs.convert_to_archive(&mut out).map_err(|e| format!("convert: {e}"))?;
     let status = match &st {
         FailSafeReadError::EndOfOriginalArchiveData => Status::EndOfData,
@@ -569,6 +617,12 @@ pub fn repair_and_read<R: Read>(src: R, sks: &[[u8; 32]], mode: Mode, rng: &mut 
 
 pub fn repair_and_read_capped<R: Read>(src: R, sks: &[[u8; 32]], mode: Mode, rng: &mut Rng, cap: usize) -> Result<(Status, BTreeMap<String, FileRead>), String> {
     let r = repair_capped(src, sks, mode, cap)?;
-    let files = read_all(&r.out_raw, &[], rng).map_err(|e| format!("UNREADABLE-OUTPUT: {e}"))?;
+    let mut files = read_all(&r.out_raw, &[], rng).map_err(|e| format!("UNREADABLE-OUTPUT: {e}"))?;
+    if REPAIR_INTO_USED_WRITER.with(std::cell::Cell::get) {
+        match files.remove(RECOVERY_NOTE) {
+            Some(f) if f.data == b"recovered by the check" => {}
+            _ => return Err("UNREADABLE-OUTPUT: the entry the output archive held before the repair is missing or altered".into()),
+        }
+    }
     Ok((r.status, files))
 }
